@@ -17,6 +17,19 @@ Definition listing_ok (readdir : dir -> list Store.name) : Prop :=
 Definition foreign_same (pid : bytes) (d0 d : dir) : Prop :=
   forall x, Store.is_ckpt pid x = false -> Store.dir_lookup d x = Store.dir_lookup d0 x.
 
+(* a Boolean test for dir_ok (used by the examples) *)
+Fixpoint nodupb (l : list bytes) : bool :=
+  match l with [] => true | x :: r => negb (existsb (Store.bytes_eqb x) r) && nodupb r end.
+Lemma nodupb_ok l : nodupb l = true -> NoDup l.
+Proof.
+  induction l as [|x r IH]; cbn [nodupb]; intro Hb; [constructor|].
+  apply andb_true_iff in Hb. destruct Hb as [Hx Hr]. constructor; [|now apply IH].
+  intro Hin. apply negb_true_iff in Hx. assert (existsb (Store.bytes_eqb x) r = true); [|congruence].
+  apply existsb_exists. exists x. split; [exact Hin | now apply CkptStore.bytes_eqb_eq].
+Qed.
+Lemma dir_ok_check (d : dir) : nodupb (Store.dir_names d) = true -> Store.dir_ok d.
+Proof. apply nodupb_ok. Qed.
+
 Lemma ts_ms_u64 r : Bincode.is_u64 (ts_ms r).
 Proof.
   unfold ts_ms, Bincode.is_u64, Bincode.u64_max. destruct (r <? 0)%Z; [lia|].
@@ -166,6 +179,45 @@ Section Facts.
   Proof.
     intro Hj. unfold exec_seq_ckpt_old, exec_seq_ckpt, exec_seq_ckpt_with.
     now rewrite old_loop_same.
+  Qed.
+
+  (* ---------------------------------------------------------------- EveryNNodes(0) *)
+  (* `node_index > 0 && node_index.is_multiple_of(0)`: is_multiple_of(0) holds only for 0 *)
+  Lemma every0_never c last now idx b :
+    c_policy c = Store.EveryNNodes 0 ->
+    Store.should_checkpoint (c_enabled c) (c_policy c) last now (Z.of_nat idx) b = false.
+  Proof.
+    intros ->. unfold Store.should_checkpoint. destruct (c_enabled c); [|reflexivity].
+    cbn [Z.eqb]. destruct (0 <? Z.of_nat idx)%Z eqn:E1; [|reflexivity].
+    destruct (Z.of_nat idx =? 0)%Z eqn:E2; [|reflexivity].
+    apply Z.ltb_lt in E1. apply Z.eqb_eq in E2. lia.
+  Qed.
+
+  Lemma every0_loop arm c pid total term chain :
+    c_policy c = Store.EveryNNodes 0 ->
+    forall i idx buf m,
+      snd (seq_ckpt_loop readdir H pct clock arm c pid total term i idx chain buf m) = m.
+  Proof.
+    intro Hp. induction chain as [|n r IH]; intros i idx buf m; [reflexivity|].
+    cbn [seq_ckpt_loop]. destruct (arm i term n buf); try reflexivity.
+    rewrite IH. unfold ckpt_after. now rewrite every0_never.
+  Qed.
+
+  (* under EveryNNodes(0) the sequential run writes nothing: the directory is the initial one,
+     cleared of this pipeline's files when the run succeeds *)
+  Theorem every0_writes_nothing c fs term chain :
+    c_policy c = Store.EveryNNodes 0 ->
+    let pid := pid_seq H (length chain) in
+    let '(res, d') := exec_seq_ckpt sh readdir H avail pct clock c fs term chain in
+    d' = match res with Ok _ => Store.clear readdir pid (mkdir fs) | _ => mkdir fs end.
+  Proof.
+    intros Hp pid. unfold exec_seq_ckpt, exec_seq_ckpt_with. rewrite recover_true. fold pid.
+    pose proof (every0_loop (ckpt_arm sh) c pid (length chain) term chain Hp 0 0 None
+                            (mk_mgr None (mkdir fs))) as Hl.
+    destruct (seq_ckpt_loop _ _ _ _ _ _ _ _ _ _ _ _ _ _) as [res m]. cbn [snd] in Hl. subst m.
+    cbn [m_dir]. destruct res as [buf | e | | ]; try reflexivity.
+    destruct (take buf) as [p | e | | ]; try reflexivity.
+    destruct (Nat.eqb (fst p) term); reflexivity.
   Qed.
 
   (* ---------------------------------------------------------------- the directory *)
